@@ -4,6 +4,8 @@ CONSTANTS
   InitUp = 2
   MaxFaults = 4
   FaultKinds = {"add", "remove", "unlist", "stop", "start", "restart", "droppooled", "dropctrl", "dropall", "mute"}
+  Hosts = {"h1", "h2", "h3", "h4"}
+  FirstHost = "h1"
   TimerStoppedOnClose = FALSE
 INVARIANTS SomeoneServes ExpectedExcludesUnlisted QuiescentConverged ExportInv
 PROPERTY Settles
